@@ -444,6 +444,14 @@ class Interp:
             return frame.store[key]
         if key in self.globals:
             return self.globals[key]
+        # A symbol object that is not declared in the interpreted tree (e.g.
+        # the bounds of an ArrayType in a copied tree still reference the
+        # symbols of the tree it was copied from) denotes the same-named
+        # entity visible from the routine.
+        if frame.routine is not None:
+            other = self._visible_symbol(sym, frame)
+            if other is not None and other is not sym:
+                return self.storage(other, frame, node)
         iface = getattr(sym, "interface", None)
         if isinstance(iface, ImportInterface):
             target = self._imported(sym)
@@ -488,10 +496,29 @@ class Interp:
             return False
         node = frame.routine
         for sched in node.walk(N.ScopingNode):
-            if sym.name in sched.symbol_table.symbols_dict and \
-                    sched.symbol_table.symbols_dict[sym.name] is sym:
+            if any(one is sym for one in sched.symbol_table.symbols):
                 return True
         return False
+
+    def _visible_symbol(self, sym, frame):
+        """None if `sym` is declared in the interpreted tree; otherwise the
+        same-named symbol visible from the routine (or None)."""
+        if self._declared_in_routine(sym, frame):
+            return None
+        node = frame.routine.parent
+        while node is not None:
+            if isinstance(node, N.ScopingNode) and \
+                    any(one is sym for one in node.symbol_table.symbols):
+                return None
+            node = node.parent
+        if self.root is not None:
+            for cont in self.root.walk(N.Container):
+                if any(one is sym for one in cont.symbol_table.symbols):
+                    return None
+        try:
+            return frame.routine.symbol_table.lookup(sym.name)
+        except KeyError:
+            return None
 
     def _imported(self, sym):
         cname = sym.interface.container_symbol.name.lower()
